@@ -84,11 +84,11 @@ func doWalk(prop string, c *KeyCase) (*walk, *Violation) {
 		ws := walkStep{Step: s, Res: w.Run.Steps[i], Pre: w.Model.ModelState, HeldNotesPre: w.Model.HeldNoteKeys()}
 		switch s.T {
 		case "key":
-			ws.Model = w.Model.Key(s.Sub, s.Code, s.Val)
+			ws.Model = w.Model.Key(s.SK(), s.Code, s.Val)
 			if s.Val == 1 {
-				down[PK{s.Sub, s.Code}] = true
+				down[PK{s.SK(), s.Code}] = true
 			} else {
-				delete(down, PK{s.Sub, s.Code})
+				delete(down, PK{s.SK(), s.Code})
 			}
 		case "abs":
 			axisRest[s.Code] = math.Abs(axisPos(axisInfo[s.Code], s.Val)) < 0.3
@@ -214,20 +214,20 @@ func checkC02(c KeyCase) (bool, *Violation) {
 				p.ch, p.pitch, p.registered = int(ons[0][0]&0x0f), int(ons[0][1]), true
 			} else if len(ons) == 0 && !ws.Model.OutOfRange {
 				// suppressed by the collision mode (no_repeat with another holder): the model says what was registered
-				hn := w.Model.perKeyAt(i, w, PK{ws.Step.Sub, ws.Step.Code})
+				hn := w.Model.perKeyAt(i, w, PK{ws.Step.SK(), ws.Step.Code})
 				if hn != nil {
 					p.ch, p.pitch, p.registered = hn.Ch, hn.Pitch, true
 				}
 			} else if len(ons) > 1 {
 				return true, violation("C02", "press-multiple-note-on", "", "%s emitted %s", describeStep(i, ws), fmtMsgs(out))
 			}
-			pins[PK{ws.Step.Sub, ws.Step.Code}] = p
+			pins[PK{ws.Step.SK(), ws.Step.Code}] = p
 		case "note-release", "ignored":
 			if ws.Step.T != "key" || ws.Step.Val != 0 {
 				break
 			}
-			p, ok := pins[PK{ws.Step.Sub, ws.Step.Code}]
-			delete(pins, PK{ws.Step.Sub, ws.Step.Code})
+			p, ok := pins[PK{ws.Step.SK(), ws.Step.Code}]
+			delete(pins, PK{ws.Step.SK(), ws.Step.Code})
 			offs := 0
 			for _, m := range out {
 				if isNoteOn(m) {
@@ -283,7 +283,7 @@ func (m *Model) perKeyAt(i int, w *walk, code PK) *heldNote {
 	for j := 0; j <= i; j++ {
 		s := w.Case.Steps[j]
 		if s.T == "key" {
-			mm.Key(s.Sub, s.Code, s.Val)
+			mm.Key(s.SK(), s.Code, s.Val)
 		}
 	}
 	if hn, ok := mm.perKey[code]; ok {
@@ -575,9 +575,9 @@ func checkC13(c C13Case) (bool, *Violation) {
 			if panicSeen && ws.Model.Kind == "note-press" {
 				laterSamePitch = true // a press after the panic (counted as the non-trivial continuation)
 			}
-			isHeldRelease := ws.Step.T == "key" && ws.Step.Val == 0 && heldAtPanic[PK{ws.Step.Sub, ws.Step.Code}]
+			isHeldRelease := ws.Step.T == "key" && ws.Step.Val == 0 && heldAtPanic[PK{ws.Step.SK(), ws.Step.Code}]
 			if isHeldRelease {
-				delete(heldAtPanic, PK{ws.Step.Sub, ws.Step.Code})
+				delete(heldAtPanic, PK{ws.Step.SK(), ws.Step.Code})
 				if !same && len(out) != 0 {
 					return true, violation("C13", "held-key-release", c.D.Mode,
 						"%s: key was held across the panic; its release emitted %s, without the panic it emits %s (at most that redundant Note Off is allowed)",
@@ -647,7 +647,7 @@ func (m *Model) pairHeldAt(i int, w *walk) bool {
 	mm := NewModel(w.Case.D)
 	for j := 0; j < i; j++ {
 		if s := w.Case.Steps[j]; s.T == "key" {
-			mm.Key(s.Sub, s.Code, s.Val)
+			mm.Key(s.SK(), s.Code, s.Val)
 		}
 	}
 	return mm.CompletePairHeld()
@@ -659,7 +659,7 @@ func (m *Model) perKeySnapshot(i int, w *walk) map[PK]heldNote {
 	for j := 0; j < i; j++ {
 		s := w.Case.Steps[j]
 		if s.T == "key" {
-			mm.Key(s.Sub, s.Code, s.Val)
+			mm.Key(s.SK(), s.Code, s.Val)
 		}
 	}
 	out := map[PK]heldNote{}
